@@ -720,10 +720,34 @@ def check_C18(tier):
     return finish('C18', rep, gate)
 
 
+def _scenario_classifier(name):
+    if name == 'shared_new_dir':
+        return threadcheck.classify_p2
+    if name in ('dup_file', 'dup_sub', 'dup_sub_cached', 'dup_sub_json_equal', 'dup_sub_json_equal_cached'):
+        return threadcheck.classify_p1
+    return None
+
+
+def _explore_one_scenario(job):
+    name, index, bound, cap, seed = job
+    rng = random.Random(seed * 17 + 9 + 1000003 * index)
+    classes = set()
+    n, fails, e, maxdec, nseq = threadcheck.explore_scenario(name, threadcheck.scenarios()[name], bound, cap, rng,
+                                                             _scenario_classifier(name), classes)
+    return name, (n, fails, sorted(e), maxdec, nseq, sorted(classes))
+
+
 def explore_threads(prop, tier, rep, names, bound, cap):
     """systematic schedule exploration of the named thread scenarios on the real code"""
+    # one process per scenario (the schedules of one scenario are explored in order; scenarios are independent)
+    jobs = [(name, i, bound, cap, core.seed()) for i, name in enumerate(names)]
+    if len(jobs) > 1:
+        ctx = core.multiprocessing.get_context('fork')
+        with ctx.Pool(min(16, len(jobs))) as pool:
+            results = dict(pool.map(_explore_one_scenario, jobs, chunksize=1))
+    else:
+        results = dict(_explore_one_scenario(j) for j in jobs)
     S = threadcheck.scenarios()
-    rng = random.Random(core.seed() * 17 + 9)
     total = 0
     edges = set()
     reported = set()
@@ -734,7 +758,8 @@ def explore_threads(prop, tier, rep, names, bound, cap):
             classify, proto = threadcheck.classify_p2, ('P2', 2)
         elif name in ('dup_file', 'dup_sub', 'dup_sub_cached', 'dup_sub_json_equal', 'dup_sub_json_equal_cached'):
             classify, proto = threadcheck.classify_p1, ('P1', 2)
-        n, fails, e, maxdec, nseq = threadcheck.explore_scenario(name, S[name], bound, cap, rng, classify, classes)
+        n, fails, e, maxdec, nseq, cl = results[name]
+        classes |= set(cl)
         if proto is not None:
             mo, msched = threadcheck.model_outcomes(*proto)
             tie[name] = {'model': '%s with %d threads' % proto, 'model_schedules': msched, 'model_outcomes': sorted(mo),
@@ -747,7 +772,7 @@ def explore_threads(prop, tier, rep, names, bound, cap):
                               note='real outcome(s) %s not reachable in the model %s' % (sorted(extra), proto[0]), no_input=True)
             rep.count('traces_validated_against_model', n)
         total += n
-        edges |= e
+        edges |= set(tuple(x) for x in e)
         rep.count('evaluations', n)
         rep.count('schedules:' + name, n)
         rep.distinct.add(name)
